@@ -2,6 +2,7 @@ package props
 
 import (
 	"fmt"
+	"strings"
 
 	"gkvverif/harness"
 )
@@ -20,7 +21,7 @@ func c13Profiles(tier string) []Profile {
 					k := k
 					for p := 1; p <= nprio; p++ {
 						p := int32(p)
-						ls = append(ls, Letter{fmt.Sprintf("Set(%s,%d)", k, p), func(w *harness.World) { w.SetItem("x", k, p, bs("v"+string(k))) }})
+						ls = append(ls, Letter{fmt.Sprintf("Set(%s,%d)", k, p), func(w *harness.World) { w.SetItem("x", k, p, bs(strings.Repeat("v", int(p))+string(k))) }})
 					}
 				}
 				for _, k := range keys {
